@@ -23,6 +23,12 @@ CHECKS['C06'] = dict(
    note='Trusted: Coq kernel; gen_params.py (dict extraction); hand model of parse_guards / p_mixin_guard_cond_rev / Deferred first-match; argument binding and numeric operand evaluation tied by correspondence only.',
    design='3/C06')
 
+CHECKS['C04'] = dict(
+   technique='Coq proof by induction over rendering derivations (parser round trip, unbounded) and over expression trees (evaluation) + operator-pair matrix read off the real LALR automaton as a table fact + correspondence impl/model/spec',
+   text='Theorems C04_parse_any_rendering (the shift/reduce parser driven by the operator-pair matrix that gen_params.py reads off the REAL generated automaton reads back every expression tree from every rendering: minimal or redundant parentheses, -( ), any size), C04_parse_minimal, C04_eval (Expression.parse/NegatedExpression.parse = ordinary arithmetic over Q with the unit of the first operand that has one, under the property own exclusions). Table facts: behavioural matrix = declared matrix = two left-associative levels; operator map of Expression.operate. Correspondence: random trees and all operator sequences, literals and variables, compared numerically to 1e-9 and on units and integer syntax.',
+   note='Trusted: Coq kernel; gen_params.py (matrix extraction by parsing 16 probes with the real parser); hand model of Expression.parse/with_units/analyze_number; python float vs exact rationals covered by correspondence (1e-9). Modelling assumption: an LR automaton treats operator sequences as its operator-pair decisions dictate.',
+   design='3/C04')
+
 NOT_YET = {}
 
 
